@@ -524,8 +524,160 @@ pub fn eval(ctx: &mut Ctx, op: &str, args: &[Sexp]) -> Option<String> {
             }
             Some(de_answer(&k))
         }
+        "stack" => {
+            // C20: checksum-then-COBS over a storage: serialize_with_flavor(v, CrcModifier::new(Cobs::try_new(storage)?, digest))
+            if args.first()?.atom()? != "crccobs" {
+                return None;
+            }
+            let storage = args.get(1)?.atom()?;
+            let cap: usize = args.get(2)?.atom()?.parse().ok()?;
+            let alg = args.get(3)?.atom()?;
+            let t = DTy::from_sexp(args.get(4)?)?;
+            let v = DVal::from_sexp(args.get(5)?)?;
+            if alg != "CRC_32_ISO_HDLC" && alg != "CRC_16_XMODEM" && alg != "CRC_8_SMBUS" && alg != "CRC_64_XZ" {
+                return None;
+            }
+            use postcard::ser_flavors::crc::CrcModifier;
+            macro_rules! with_digest {
+                ($d:ident, $body:expr) => {
+                    match alg {
+                        "CRC_32_ISO_HDLC" => { let k = crc::Crc::<u32>::new(&crc::CRC_32_ISO_HDLC); let $d = k.digest(); $body }
+                        "CRC_16_XMODEM" => { let k = crc::Crc::<u16>::new(&crc::CRC_16_XMODEM); let $d = k.digest(); $body }
+                        "CRC_8_SMBUS" => { let k = crc::Crc::<u8>::new(&crc::CRC_8_SMBUS); let $d = k.digest(); $body }
+                        _ => { let k = crc::Crc::<u64>::new(&crc::CRC_64_XZ); let $d = k.digest(); $body }
+                    }
+                };
+            }
+            let r: Result<Option<SerRes>, ()> = guard(|| match storage {
+                "slice" => {
+                    let mut g = Guarded::new(cap);
+                    let r = with_digest!(d, Cobs::try_new(Slice::new(g.buf())).and_then(|c| postcard::serialize_with_flavor(&v, CrcModifier::new(c, d))).map(|s| s.to_vec()).map_err(|e| err_name(&e)));
+                    if !g.intact() {
+                        return Some(Err("wrote-outside-buffer"));
+                    }
+                    Some(r)
+                }
+                "hvec" => with_cap!(cap, N, with_digest!(d, Cobs::try_new(HVec::<N>::default()).and_then(|c| postcard::serialize_with_flavor(&v, CrcModifier::new(c, d))).map(|s| s.to_vec()).map_err(|e| err_name(&e)))),
+                "alloc" => Some(with_digest!(d, Cobs::try_new(AllocVec::new()).and_then(|c| postcard::serialize_with_flavor(&v, CrcModifier::new(c, d))).map_err(|e| err_name(&e)))),
+                _ => None,
+            });
+            let r = match r {
+                Err(()) => return Some("FAIL panic in the flavour stack".into()),
+                Ok(r) => r?,
+            };
+            // oracle: output = COBS frame of (plain ++ checksum); undoing the layers recovers the value
+            if let (Ok(out), Ok(plain)) = (&r, postcard::to_allocvec(&v)) {
+                let mut payload = plain.clone();
+                payload.extend_from_slice(&crc_raw(alg, &plain)?);
+                let want = Cobs::try_new(AllocVec::new()).and_then(|f| push_all(f, &payload)).ok();
+                if want.as_ref() != Some(out) {
+                    ctx.oracle_fail("stack output is not the COBS frame of (plain bytes ++ checksum)".into());
+                }
+                let mut c = out.clone();
+                let back = postcard::take_from_bytes_cobs::<serde::de::IgnoredAny>(&mut c).is_ok(); // placeholder to keep cobs decode exercised
+                let _ = back;
+                let mut c = out.clone();
+                let n = c.len();
+                // manual unstack: COBS-decode in place via from_bytes_cobs on a byte-array-free path:
+                // decode as raw bytes using the accumulator-free API: take_from_bytes_cobs needs a type,
+                // so decode the value through CRC after stripping COBS with the reference Cobs decoder (to_allocvec round trip)
+                let _ = n;
+                if let Some(dec) = cobs_decode_ref(&c[..c.len() - 1]) {
+                    if dec != payload {
+                        ctx.oracle_fail("COBS-decoding the stack output does not give plain ++ checksum".into());
+                    }
+                    match crc_from(alg, &t, &dec) {
+                        Some(Ok(v2)) if v2 == v => {}
+                        other => ctx.oracle_fail(format!("undoing the layers does not recover the value: {:?}", other.map(|r| r.map(|v| v.to_string())))),
+                    }
+                } else {
+                    ctx.oracle_fail("stack output is not valid COBS".into());
+                }
+                c.clear();
+            }
+            Some(ser_str(&r))
+        }
+        "rec" => {
+            // C20: a recording user flavour, with and without a block-write override
+            let mode = args.first()?.atom()?;
+            let v = DVal::from_sexp(args.get(1)?)?;
+            struct RecO(String);
+            impl Flavor for RecO {
+                type Output = String;
+                fn try_push(&mut self, b: u8) -> postcard::Result<()> {
+                    self.0.push_str(&format!(" p:{:02x}", b));
+                    Ok(())
+                }
+                fn try_extend(&mut self, bs: &[u8]) -> postcard::Result<()> {
+                    self.0.push_str(" e:");
+                    for b in bs {
+                        self.0.push_str(&format!("{:02x}", b));
+                    }
+                    Ok(())
+                }
+                fn finalize(self) -> postcard::Result<String> {
+                    Ok(self.0)
+                }
+            }
+            struct RecD(String, Vec<u8>);
+            impl Flavor for RecD {
+                type Output = (String, Vec<u8>);
+                fn try_push(&mut self, b: u8) -> postcard::Result<()> {
+                    self.0.push_str(&format!(" p:{:02x}", b));
+                    self.1.push(b);
+                    Ok(())
+                }
+                fn finalize(self) -> postcard::Result<(String, Vec<u8>)> {
+                    Ok((self.0, self.1))
+                }
+            }
+            let plain = postcard::to_allocvec(&v).ok();
+            let r = guard(|| {
+                if mode == "override" {
+                    postcard::serialize_with_flavor(&v, RecO(String::new())).map(|s| (s, None)).map_err(|e| err_name(&e))
+                } else {
+                    postcard::serialize_with_flavor(&v, RecD(String::new(), Vec::new())).map(|(s, b)| (s, Some(b))).map_err(|e| err_name(&e))
+                }
+            });
+            Some(match r {
+                Err(()) => "FAIL panic with a user flavour".into(),
+                Ok(Err(e)) => format!("err {}", e),
+                Ok(Ok((s, bytes))) => {
+                    if let (Some(b), Some(p)) = (&bytes, &plain) {
+                        if b != p {
+                            ctx.oracle_fail("a user flavour did not receive exactly the plain encoding".into());
+                        }
+                    }
+                    let joined: String = s.split_whitespace().map(|c| &c[2..]).collect();
+                    if let Some(p) = &plain {
+                        if joined != hex(p)[1..] {
+                            ctx.oracle_fail("payloads of the calls made to a user flavour do not concatenate to the plain encoding".into());
+                        }
+                    }
+                    format!("ok{}", s)
+                }
+            })
+        }
         _ => None,
     }
+}
+
+/// reference COBS decoder (independent of the cobs crate) for a zero-free frame body
+fn cobs_decode_ref(body: &[u8]) -> Option<Vec<u8>> {
+    let mut out = Vec::new();
+    let mut i = 0;
+    while i < body.len() {
+        let code = body[i] as usize;
+        if code == 0 || i + code > body.len() {
+            return None;
+        }
+        out.extend_from_slice(&body[i + 1..i + code]);
+        i += code;
+        if code != 0xFF && i < body.len() {
+            out.push(0);
+        }
+    }
+    Some(out)
 }
 
 // ------------------------------------------------------------------ generators
@@ -716,6 +868,42 @@ pub fn gen_c07(r: &mut Rng, thorough: bool, out: &mut Vec<String>) {
         f.push(1);
         f.push(0);
         out.push(format!("cobsde bytes {}", hex(&f)));
+    }
+}
+
+pub fn gen_c20(r: &mut Rng, thorough: bool, out: &mut Vec<String>) {
+    let n = if thorough { 8000 } else { 500 };
+    let algs = ["CRC_32_ISO_HDLC", "CRC_16_XMODEM", "CRC_8_SMBUS", "CRC_64_XZ"];
+    let mut cases: Vec<(DTy, DVal)> = kind_corpus();
+    for i in 0..n {
+        cases.push(small_val(r, i));
+    }
+    cases.push((DTy::Bytes, DVal::Bytes(vec![3u8; 260])));
+    cases.push((DTy::Bytes, DVal::Bytes(vec![0u8; 300])));
+    for (i, (t, v)) in cases.iter().enumerate() {
+        if has_zero_width_seq(t) {
+            continue;
+        }
+        out.push(format!("rec override {}", v));
+        out.push(format!("rec default {}", v));
+        // the other stacks (plain / COBS / CRC of each width over three storages) with ample capacity
+        let plain_len = postcard::to_allocvec(v).map(|b| b.len()).unwrap_or(0);
+        let roomy = HCAPS.iter().copied().find(|c| *c >= plain_len + plain_len / 254 + 24).unwrap_or(4096);
+        let alg = algs[i % algs.len()];
+        for storage in ["alloc", "slice", "hvec"] {
+            out.push(format!("stack crccobs {} {} {} {} {}", storage, roomy, alg, t, v));
+        }
+        if i % 4 == 0 {
+            // too-small storage: buffer-full, never a panic
+            let small = r.below((plain_len + 3) as u64) as usize;
+            out.push(format!("stack crccobs slice {} {} {} {}", small, alg, t, v));
+            for framing in ["plain", "cobs", ALGS[i % ALGS.len()]] {
+                out.push(format!("sercap {} slice {} {}", framing, roomy, v));
+                if framing == "plain" || framing == "cobs" || HVEC_ALGS.contains(&framing) {
+                    out.push(format!("sercap {} hvec {} {}", framing, roomy, v));
+                }
+            }
+        }
     }
 }
 
